@@ -123,6 +123,10 @@ def r1_r2(cx):
     if k is None:
         consts = sorted({o.cint() for kk, o in sl.origins(acc.args[1]) if kk == "const" and o.cint() is not None})
         if len(consts) == 1: k = consts[0]
+    if k is None:
+        # `stop.map(|_| K).unwrap_or(countdown)` written out in the view: K is the one constant alternative of the wait time
+        consts = sorted({o.cint() for kk, o in Slice(ls, du, extra_pass=("=unwrap_or", "=unwrap_or_else")).origins(acc.args[1]) if kk == "const" and o.cint() is not None})
+        if len(consts) == 1: k = consts[0]
     cx.check(k is not None and 0 < k <= 1000, "C15.R2", "varlink:listen:poll-quantum", cl0[0].sp if cl0 else site, "poll quantum with a stop flag is %s ms (must be a constant in (0, 1000])" % k, note_ok="%s ms" % k)
     # the flag is loaded on every timed-out poll when configured, true -> Ok(())
     loads = [t for t in ls.calls("=load") if "Atomic" in t.callee.path and t.bb in arm]
@@ -201,8 +205,10 @@ def r3(cx):
         # lazy adaptors between iter and for_each must not interleave the two passes (they are two separate statements here)
     elif len(sends) != 1 or len(joins) != 1 or len(term) != 1: why.append("expected one send(Terminate) loop and one join loop (sends %d, joins %d)" % (len(sends), len(joins)))
     else:
-        if "sender" not in fields(sends[0]): why.append("Terminate is not sent on the pool's job channel (behind queued jobs)")
-        iters = [t for t in pd.calls("=into_iter", "=iter_mut", "=iter") if "workers" in fields(t)]
+        from vlib.cfg import param_fields
+        pf = lambda t, ai=0: set(fields(t, ai)) | param_fields(pd, pdu, t.args[ai], cx.mir)
+        if "sender" not in pf(sends[0]): why.append("Terminate is not sent on the pool's job channel (behind queued jobs)")
+        iters = [t for t in pd.calls("=into_iter", "=iter_mut", "=iter") if "workers" in pf(t)]
         if len(iters) < 2: why.append("the send and join loops do not both run over `workers`")
         if sends[0].bb not in pcfg.reach(sends[0].target): why.append("send is not in a loop (one Terminate per worker)")
         if joins[0].bb not in pcfg.reach(joins[0].target): why.append("join is not in a loop (every worker)")
